@@ -218,6 +218,33 @@ func (fr *Frame) stdlibCall2(in *ssa.Call, callee *ssa.Function, name string, ar
 			ex.unsupp("json.Unmarshal target is not a local variable")
 		}
 		return &GVal{T: e, Typ: in.Type()}
+	case "encoding/json.Marshal", "encoding/json.MarshalIndent":
+		use("json.Marshal(v): never panics; succeeds on JSON data (specJSONVal) with text t such that jsonDecode(t) == v; its error is not a SyntaxError of this package")
+		v := fr.term(args[0])
+		bs := w.sliceSort(SBV8)
+		goFn("jsonEncode", []*Sort{SVal}, bs.S)
+		goFn("jsonDecode", []*Sort{bs.S}, SVal)
+		goFn("jsonOK", []*Sort{bs.S}, SBool)
+		goFn("jsonMarshalOK", []*Sort{SVal}, SBool)
+		okc := App("jsonMarshalOK", SBool, v)
+		enc := App("jsonEncode", bs.S, v)
+		if _, ok := p.specs["specJSONVal"]; ok {
+			ex.addFact(Implies(App("specJSONVal", SBool, v), okc))
+		}
+		ex.addFact(Implies(okc, And(Eq(App("jsonDecode", SVal, enc), v), App("jsonOK", SBool, enc), Not(w.SlNil(enc)), Le(IntLit(0), w.SlLen(enc)), Le(w.SlLen(enc), maxLen))))
+		e := Ite(okc, mk("ErrNil", SErr), App("ErrOther", SErr, p.FreshConst("errid", SInt)))
+		res := Ite(okc, enc, ex.zero(types.NewSlice(types.Typ[types.Uint8])))
+		return &GVal{Tuple: []*GVal{{T: res, Typ: types.NewSlice(types.Typ[types.Uint8])}, {T: e, Typ: errType()}}, Typ: in.Type()}
+	case "strconv.ParseFloat":
+		use("strconv.ParseFloat(s, 64): err == nil gives some float64 — possibly NaN or an infinity (it accepts \"inf\", \"nan\", hex floats, underscores); never panics")
+		sT := fr.term(args[0])
+		goFn("parseFloatVal", []*Sort{SStr}, SF64)
+		goFn("parseFloatOK", []*Sort{SStr}, SBool)
+		okc := App("parseFloatOK", SBool, sT)
+		e := Ite(okc, mk("ErrNil", SErr), App("ErrOther", SErr, p.FreshConst("errid", SInt)))
+		return &GVal{Tuple: []*GVal{{T: App("parseFloatVal", SF64, sT), Typ: types.Typ[types.Float64]}, {T: e, Typ: errType()}}, Typ: in.Type()}
+	case "sort.Stable":
+		return fr.sortStable(in, args)
 	case "reflect.ValueOf":
 		use("reflect.ValueOf(i) wraps the dynamic value; ValueOf(nil) is the invalid Value")
 		v := fr.term(args[0])
@@ -296,4 +323,88 @@ func (fr *Frame) stdlibCall2(in *ssa.Call, callee *ssa.Function, name string, ar
 		return &GVal{T: App("deepEq", SBool, a, b), Typ: in.Type()}
 	}
 	return nil
+}
+
+// sortStable models sort.Stable(x).
+//   assumed: it calls only x.Len/Less/Swap with indices in range and terminates whatever Less returns;
+//   for the slice adapters (Float64Slice, StringSlice) the data is permuted into ascending order;
+//   for adapter objects it assigns what their Less and Swap assign (a.hasError, the elements of a.items).
+func (fr *Frame) sortStable(in *ssa.Call, args []*GVal) *GVal {
+	ex := fr.ex
+	p := ex.p
+	w := p.w
+	p.assumptions["stdlib: sort.Stable(x) only calls x.Len/Less/Swap with indices in range, terminates for any Less, and permutes the data (stable, ascending when Less is a strict weak order)"] = true
+	x := args[0].Wrapped
+	if x == nil {
+		ex.unsupp("sort.Stable on an unknown value")
+		return &GVal{Typ: in.Type()}
+	}
+	// case A: a named slice type with value-receiver methods (Float64Slice / StringSlice)
+	if x.Reg != nil && x.Len != nil {
+		es := w.SliceInfoOfSort(w.SortOf(x.Typ)).Elem
+		fn := "sorted_" + sortIdent(es)
+		pf := "sortPerm_" + sortIdent(es)
+		as := SArray(SInt, es)
+		p.DeclareFun(fn, []*Sort{as, SInt}, as)
+		p.DeclareFun(pf, []*Sort{as, SInt, SInt}, SInt)
+		p.sortAxioms[sortIdent(es)] = es
+		if ex.st.frozen[x.Reg] {
+			ex.unsupp("sort.Stable on a slice that already escaped")
+		}
+		ex.st.cells[x.Reg] = App(fn, as, ex.st.cells[x.Reg], x.Len)
+		return &GVal{Typ: in.Type()}
+	}
+	if x.Reg == nil && x.Len == nil && x.Ptr == nil && x.T != nil && w.SliceInfoOfSort(x.T.S) != nil {
+		// sorting a slice that was not created in this call
+		fr.oblige("frame", "sort.Stable-permutes-preexisting-slice", []string{"C06", "C12", "C13"}, boolOr(x.Fresh), in.Pos())
+		ex.unsupp("sort.Stable on a slice value without a local region")
+		return &GVal{Typ: in.Type()}
+	}
+	// case B: pointer to an adapter object of this package
+	if x.Ptr != nil && x.Ptr.Cell != nil && len(x.Ptr.Path) == 0 {
+		c := x.Ptr.Cell
+		n, ok := c.typ.(*types.Named)
+		if !ok {
+			ex.unsupp("sort.Stable on %s", c.typ)
+			return &GVal{Typ: in.Type()}
+		}
+		ref := fr.publish(c)
+		tn := n.Obj().Name()
+		// frame: Swap writes the elements of the slice held in items
+		f := c.fieldFresh["items"]
+		fr.oblige("frame", "sort.Stable-permutes-only-a-fresh-slice("+tn+".items)", []string{"C06", "C12", "C13"}, boolOr(f), in.Pos())
+		// effects: hasError may be set by Less; items is permuted
+		if hk := tn + ".hasError"; true {
+			fs := ex.heapFieldSort(tn, "hasError")
+			h := ex.heapGet(ex.st, hk, fs)
+			old := Select(h, ref)
+			nv := p.FreshConst("hasError_after_sort", SBool)
+			ex.st.heap[hk] = Store(h, ref, nv)
+			// Less only ever sets the flag
+			ex.addFact(Implies(old, nv))
+			ex.sortFlag = nv
+		}
+		ik := tn + ".items"
+		fs := ex.heapFieldSort(tn, "items")
+		h := ex.heapGet(ex.st, ik, fs)
+		old := Select(h, ref)
+		si := w.SliceInfoOfSort(fs)
+		pf := "sortPerm_" + sortIdent(si.Elem)
+		fn := "permuted_" + sortIdent(si.Elem)
+		as := SArray(SInt, si.Elem)
+		p.DeclareFun(pf, []*Sort{as, SInt, SInt}, SInt)
+		p.DeclareFun(fn, []*Sort{as, SInt}, as)
+		p.permAxioms[sortIdent(si.Elem)] = si.Elem
+		ex.st.heap[ik] = Store(h, ref, w.MkSlice(si.Elem, App(fn, as, w.SlArr(old), w.SlLen(old)), w.SlLen(old), w.SlNil(old)))
+		return &GVal{Typ: in.Type()}
+	}
+	ex.unsupp("sort.Stable on an unsupported value")
+	return &GVal{Typ: in.Type()}
+}
+
+func boolOr(t *Term) *Term {
+	if t == nil {
+		return TFalse
+	}
+	return t
 }
